@@ -1,6 +1,7 @@
 import VaxisModel.Driver.Common
 import VaxisModel.Model.Wrap
 import VaxisModel.Model.WrapDraw
+import VaxisModel.Model.WrapHeap
 import VaxisModel.Spec.Wrap
 
 /-! Driver for C16 (see harness/cmd/C16/main.go for the op format).
@@ -310,7 +311,19 @@ def step (line : String) : String :=
         if kind = "R" then
           let ws := widthsRange lo hi
           let impls := impl.splitOn "|"
-          let model := "|".intercalate (ws.map fun w => encLines (richLines lb w cells))
+          -- the heap-level model (`Model.WrapHeap`: Go slices, `append` in place) runs next to the
+          -- value-level one on small texts: same lines, read after the last Scan, and the caller's
+          -- array with its spare capacity untouched (`Props.C16Heap`); a difference shows in model-canon
+          let oH : List Cell → Nat × Bool := fun l => ((richOracle lb () l).1, (richOracle lb () l).2.1)
+          let spare : List Cell := [{ g := 4094, w := 77, style := 0, sp := false, term := false, nl := false }]
+          let heapOK (w : Nat) : Bool :=
+            if cells.length > 12 then true else
+            match WrapHeap.runH (fun c n => if c == 0 then n else 2 * c) oH w cells spare, richLines lb w cells with
+            | some (ls, arr0), .ok ls' => ls == ls' && arr0 == cells ++ spare
+            | none, .hang => true
+            | _, _ => false
+          let model := "|".intercalate (ws.map fun w =>
+            if heapOK w then encLines (richLines lb w cells) else "heap-model-differs")
           let v := firstFail ((ws.zip impls).map fun p => verdictFor a (fun w ls => noNeedlessSplit lb w cells ls) cells p.1 p.2)
           let v := if impls.length ≠ ws.length then "FAIL malformed result" else v
           s!"{model}\t{impl}\t{v}"
